@@ -195,6 +195,10 @@ class PeriodicFinder:
         search_mask = (distance_mask) & (identical_elem_mask)
         combined_mask = np.array(search_mask)
         combined_mask[seed_index] = False  # Ignore self
+        # Ignore atoms that coincide with the seed atom or with one of its
+        # periodic copies: a (numerically) zero-length span cannot be a
+        # basis vector.
+        combined_mask[seed_span_lengths < 1e-3] = False
         bases = seed_spans[combined_mask]
         neighbour_factors = self.disp_factors[seed_index, distance_mask, :]
 
